@@ -6,9 +6,13 @@ package tensor
 // The flat kernels pair storage positions, so they may only be chosen when every tensor involved is contiguous,
 // untransposed, unmasked and in the same data order (comment-only).
 
+// a tensor's iterator starts at position 0 and only yields offsets inside that tensor's storage (trusted; the
+// FlatIterator behind it is covered by C05)
 //@ func tensor.Dense.Iterator
 //@   trusted
-//@   ensures [some] !isnil(result)
+//@   ensures [some] !isnil(result) && fresh(asptr("tensor.FlatIterator", result))
+//@   ensures [start] gh("it_pos", result) == 0
+//@   ensures [in_range] forall p :: 0 <= p && p < it_len(result) ==> 0 <= it_seq(result, p) && it_seq(result, p) < len(t.Raw) / rsize(t.t)
 //@   assigns nothing
 
 // flatOK(t): storage order is logical order for t (single elements are always fine)
@@ -22,6 +26,15 @@ package tensor
 //@   ensures [flat_layout] err == nil && !useIter ==> flatOK(asptr("tensor.Dense", a)) && flatOK(asptr("tensor.Dense", b)) && (!isnil(reuse) ==> flatOK(asptr("tensor.Dense", reuse)))
 //@   ensures [flat_same_order] err == nil && !useIter ==> sameOrder(asptr("tensor.Dense", a), asptr("tensor.Dense", b)) && (!isnil(reuse) ==> sameOrder(asptr("tensor.Dense", a), asptr("tensor.Dense", reuse)) && sameOrder(asptr("tensor.Dense", b), asptr("tensor.Dense", reuse)))
 //@   ensures [iterators] err == nil && useIter ==> !isnil(ait) && !isnil(bit) && (!isnil(reuse) ==> !isnil(iit))
+//@   ensures [iter_a] err == nil && useIter ==> gh("it_pos", ait) == 0 && (forall p :: 0 <= p && p < it_len(ait) ==> 0 <= it_seq(ait, p) && it_seq(ait, p) < len(asptr("tensor.Dense", a).Raw) / rsize(asptr("tensor.Dense", a).t))
+//@   ensures [iter_b] err == nil && useIter ==> gh("it_pos", bit) == 0 && (forall p :: 0 <= p && p < it_len(bit) ==> 0 <= it_seq(bit, p) && it_seq(bit, p) < len(asptr("tensor.Dense", b).Raw) / rsize(asptr("tensor.Dense", b).t))
+//@   ensures [iter_reuse] err == nil && useIter && !isnil(reuse) ==> gh("it_pos", iit) == 0 && (forall p :: 0 <= p && p < it_len(iit) ==> 0 <= it_seq(iit, p) && it_seq(iit, p) < len(asptr("tensor.Dense", reuse).Raw) / rsize(asptr("tensor.Dense", reuse).t))
+//@   ensures [iter_distinct] err == nil && useIter ==> ait.val != bit.val && (!isnil(reuse) ==> ait.val != iit.val && bit.val != iit.val)
+//@   ensures [iter_fresh] err == nil && useIter ==> fresh(asptr("tensor.FlatIterator", ait)) && fresh(asptr("tensor.FlatIterator", bit)) && (!isnil(reuse) ==> fresh(asptr("tensor.FlatIterator", iit)))
+//@   ensures [flat_when_possible] err == nil && useIter ==> !(flatOK(asptr("tensor.Dense", a)) && flatOK(asptr("tensor.Dense", b)) && sameOrder(asptr("tensor.Dense", a), asptr("tensor.Dense", b)) && (isnil(reuse) || (flatOK(asptr("tensor.Dense", reuse)) && sameOrder(asptr("tensor.Dense", a), asptr("tensor.Dense", reuse)))))
+//@   binds dataA = asptr("tensor.Dense", a).Header
+//@   binds dataB = asptr("tensor.Dense", b).Header
+//@   binds dataReuse = asptr("tensor.Dense", reuse).Header when !isnil(reuse)
 //@   ensures [no_swap] !swap && err == nil
 //@   assigns nothing
 
@@ -46,3 +59,18 @@ package tensor
 //@   ensures [flat_same_order] err == nil && !useIter && len(asptr("tensor.Dense", b).shape) > 0 && !isnil(reuse) ==> sameOrder(asptr("tensor.Dense", b), asptr("tensor.Dense", reuse))
 //@   ensures [iterators] err == nil && useIter ==> !isnil(bit) && (!isnil(reuse) ==> !isnil(iit))
 //@   assigns nothing
+
+
+// ---- the float64-specialised engine's fused multiply-add (C20): the same pairing of data and iterators as the default engine ----
+
+//@ func tensor.Float64Engine.FMA
+//@   props C20 C07
+//@   config devirt tensor.Tensor=*tensor.Dense
+//@   requires [dyn] typeis(a, "*tensor.Dense") && typeis(x, "*tensor.Dense") && typeis(y, "*tensor.Dense")
+//@   requires [distinct] asptr("tensor.Dense", a) != asptr("tensor.Dense", y) && asptr("tensor.Dense", x) != asptr("tensor.Dense", y)
+//@   requires [storage] asptr("tensor.Dense", y).Raw.arr != asptr("tensor.Dense", a).Raw.arr && asptr("tensor.Dense", y).Raw.arr != asptr("tensor.Dense", x).Raw.arr
+//@   requires [lens] len(asptr("tensor.Dense", x).Raw) >= len(asptr("tensor.Dense", a).Raw) && len(asptr("tensor.Dense", y).Raw) >= len(asptr("tensor.Dense", a).Raw)
+//@   ensures [returns_y] err == nil ==> retVal == y
+//@   ensures [flat_value] err == nil && old(flatOK(asptr("tensor.Dense", a)) && flatOK(asptr("tensor.Dense", x)) && flatOK(asptr("tensor.Dense", y)) && sameOrder(asptr("tensor.Dense", a), asptr("tensor.Dense", x)) && sameOrder(asptr("tensor.Dense", a), asptr("tensor.Dense", y))) ==> (forall i :: 0 <= i && i < len(tview("float64", asptr("tensor.Dense", a))) ==> tview("float64", asptr("tensor.Dense", y))[i] == op_Add(old(tview("float64", asptr("tensor.Dense", y))[i]), op_Mul(old(tview("float64", asptr("tensor.Dense", a))[i]), old(tview("float64", asptr("tensor.Dense", x))[i]))))
+//@   ensures [operands] unchanged(tview("float64", asptr("tensor.Dense", a))) && unchanged(tview("float64", asptr("tensor.Dense", x)))
+//@   assigns whole(tview("float64", asptr("tensor.Dense", y)))
